@@ -160,6 +160,9 @@ class _CacheServiceBase(Generic[CacheValueT]):
                 return obj
             except TypeError:
                 # Object is not hashable, convert it
+                if isinstance(obj, dict):
+                    # Keep the values: iterating a mapping would only yield its keys
+                    return tuple((_make_hashable(k), _make_hashable(v)) for k, v in obj.items())
                 if hasattr(obj, '__iter__') and not isinstance(obj, (str, bytes)):
                     # Convert iterables (like numpy arrays) to tuples
                     try:
